@@ -329,6 +329,16 @@ def r135(ctx):
                     'a page without selected rows writes nothing, so the output position must not move: %s' % (
                         [norm(e[4]) for e in outs]), m.loc(blk))
     ctx.floor('R13.5', 'cursor paths', checked, 2)
+    # a page is passed over because none of its ROWS is selected: the test that skips it reads the page's slice of the
+    # mask.  The count of non-null values left after masking says nothing about selected rows that are NULL.
+    cfg = CFG(f)
+    for c in ast.walk(blk):
+        if isinstance(c, ast.Continue):
+            tests = [e.test for e, fld in cfg.enclosing_tests(c) if isinstance(e, ast.If) and e is not blk and any(e is y for y in ast.walk(blk))]
+            on_mask = any('row_filter' in norm(t) for t in tests)
+            on_vals = [norm(t) for t in tests if any(isinstance(x, ast.Name) and x.id == 'val' for x in ast.walk(t))]
+            ctx.ob('R13.5', 'core.read_col:page-skipped-only-when-the-mask-selects-none-of-its-rows', on_mask and not on_vals,
+                   'guards of the skip: %s' % [norm(t) for t in tests], m.loc(c))
 
 
 def r138(ctx, rule='R13.8'):
